@@ -98,6 +98,20 @@ func (v *verifyCtx) env(x *Exec, st *State, fr *Frame) *CEnv {
 				return v.args[i], p.Type(), true
 			}
 		}
+		// a parameter that was renamed since the contract was written: found by its recorded position
+		for i, pn := range v.c.ParamNames {
+			if pn == name && i < len(v.fn.Params) && i < len(v.args) {
+				taken := false
+				for _, p := range v.fn.Params {
+					if p.Name() == name {
+						taken = true
+					}
+				}
+				if !taken {
+					return v.args[i], v.fn.Params[i].Type(), true
+				}
+			}
+		}
 		return nil, nil, false
 	}
 	return e
@@ -191,8 +205,10 @@ func (v *verifyCtx) enterLoop(x *Exec, st *State, fr *Frame, b *ssa.BasicBlock, 
 			// rangeindex1, rangeindex2, ...: the index of loop N (the bare name is the innermost loop entered last)
 			fr.names[fmt.Sprintf("%s%d", phi.Comment, n)] = TV{nv, phi.Type()}
 		}
-		fr.names[fmt.Sprintf("phi%d", k+1)] = TV{nv, phi.Type()}
-		fr.names[fmt.Sprintf("l%dphi%d", n, k+1)] = TV{nv, phi.Type()}
+		if pos := srcPhiPos(b, k); pos > 0 {
+			fr.names[fmt.Sprintf("phi%d", pos)] = TV{nv, phi.Type()}
+			fr.names[fmt.Sprintf("l%dphi%d", n, pos)] = TV{nv, phi.Type()}
+		}
 	}
 	st.Loops = append(st.Loops, &loopAct{hdr: b, mods: mods, mark: mark, n: n})
 	e = v.env(x, st, fr)
